@@ -87,7 +87,9 @@ Perms(n) == {f \in [1..n -> 0..(n - 1)] : \A i, j \in 1..n : f[i] = f[j] => i = 
 \* ---- leaky tanh: the case analysis ------------------------------------------------------------------------------------
 LeakyBranch(m, x) == IF RLe(m, RAbs(x)) THEN "linear" ELSE "tanh"
 LeakyPts(m) == {RZero, m, RNeg(m), RDiv(m, R(2)), RNeg(RDiv(m, R(2))), RAdd(m, Q(1, 4)), RNeg(RAdd(m, Q(1, 4))),
-                RAdd(m, R(50)), RNeg(RAdd(m, R(50))), RSub(m, Q(1, 8)), RNeg(RSub(m, Q(1, 8)))}
+                RAdd(m, R(50)), RNeg(RAdd(m, R(50))), RSub(m, Q(1, 8)), RNeg(RSub(m, Q(1, 8))),
+                \* far out on the tangent line: the only place where its slope (1e-12 and less for max_val >= 14) shows in the value
+                RAdd(m, R(1000000)), RNeg(RAdd(m, R(1000000))), RAdd(m, R(100000000)), RNeg(RAdd(m, R(100000000)))}
 
 \* ---- the machine: one state per (configuration, point) --------------------------------------------------------------
 Init ==
